@@ -7,6 +7,7 @@ import Rsbdd.Driver.DotCases
 import Rsbdd.Model.Gen.Queens
 import Rsbdd.Model.Gen.QueensText
 import Rsbdd.Model.Gen.Clique
+import Rsbdd.Model.Gen.CliqueText
 import Rsbdd.Model.Gen.Sudoku
 import Rsbdd.Model.Gen.SudokuText
 import Rsbdd.Model.Gen.Graph
@@ -156,6 +157,32 @@ def copyPrefix (vs : List String) : String :=
 /-- `clique|u|a|edges (hexa>hexb,…)|exit class|tree (real ids)|names (hexname:id,…)|solver rows or -` -/
 def handleC16 (fields : List String) : Verdict :=
   match fields with
+  | ["text", u, a, version, edges, bytes] =>
+    -- the bytes of the output against the text model (`Clique.text`): a recorded tie, not a verdict.  The
+    -- iteration order of the vertex set is read off the `forall` line (so: only without --all)
+    let edgesL : Option (List (String × String)) :=
+      if edges.isEmpty then some [] else (edges.splitOn ",").mapM (fun e => match e.splitOn ">" with
+        | [x, y] => match unhexStr x, unhexStr y with
+          | some x, some y => some (x, y)
+          | _, _ => none
+        | _ => none)
+    match edgesL, unhexStr version, unhexStr bytes with
+    | some es, some v, some real =>
+      if a == "1" then { modelOk := true, info := some "text-model.not-compared(--all hides the vertex order)" } else
+      let verts := dedupS (es.flatMap (fun e => [e.1, e.2]))
+      let pre := String.ofList (Clique.copyPrefix (verts.map (·.toList)))
+      -- the order of the vertices: the names after `[` on the last line
+      let lastLine := ((real.splitOn "\n").filter (· ≠ "")).getLast?.getD ""
+      let inner := ((lastLine.splitOn "] >= [").head?.getD "").splitOn "=> ["
+      let order := match inner with
+        | [_, l] => (l.splitOn ", ").filter (· ≠ "")
+        | _ => []
+      let idxOf := fun (n : String) => (verts.idxOf? n).getD 0
+      let same := order.all (verts.contains ·) && order.length == verts.length &&
+        real.toList == Clique.text v (fun i => (verts.getD i "").toList) pre.toList (es.map (fun e => (idxOf e.1, idxOf e.2)))
+          (order.map idxOf) (u == "1") false
+      { modelOk := true, nontrivial := same, info := some (if same then "text-model.identical" else "text-model.differs") }
+    | _, _, _ => Verdict.badLine "unreadable text line"
   | ["clique", u, a, edges, cls, ast, names, solver] =>
     let undirected := u == "1"; let all := a == "1"
     let edgesL : Option (List (String × String)) :=
